@@ -8,7 +8,6 @@
    transcribed statement by statement. *)
 From GP Require Export Bytes Generated.
 
-Definition path := bytes.
 
 Record opts := {
   o_diff : bool;            (* -d / --diff *)
